@@ -84,7 +84,15 @@ def table_cases(rep, tier, seed):
         with zipfile.ZipFile(os.path.join(d, f)) as z:
             stats[f] = json.loads(z.read("stats.json"))       # independent reader of the archive
     traces = []
-    combos = [(["r0.zip", "r1.zip"], False, False), (["r1.zip", "r0.zip"], True, False), (["r0.zip", "r1.zip"], False, True),
+    # two results whose estimates have the same file name in different directories -> same label
+    os.makedirs(os.path.join(d, "runb"), exist_ok=True)
+    cli.write_tum(os.path.join(d, "runb", "est0.txt"), range(8), [(i, 0.5 * i, 1.0) for i in range(8)])
+    r = cli.run_cli("ape", ["tum", "ref.txt", "runb/est0.txt", "--save_results", "r3.zip"], d)
+    if r["code"] != 0 or r["exc"] != "none":
+        raise core.MachineryError("could not produce result file: %s" % r)
+    with zipfile.ZipFile(os.path.join(d, "r3.zip")) as z:
+        stats["r3.zip"] = json.loads(z.read("stats.json"))
+    combos = [(["r0.zip", "r3.zip"], False, False), (["r0.zip", "r1.zip"], False, False), (["r1.zip", "r0.zip"], True, False), (["r0.zip", "r1.zip"], False, True),
               (["r1.zip", "r0.zip"], False, True), (["r0.zip"], False, False), (["r0.zip", "r1.zip", "r1.zip"], True, True),
               (["r2.zip", "r0.zip"], True, False)]
     import pandas as pd
@@ -99,8 +107,9 @@ def table_cases(rep, tier, seed):
             labels = list(fs)
             want = {f: stats[f] for f in fs}
         else:
-            labels = ["est%s.txt" % f[1] for f in fs]
-            want = {"est%s.txt" % f[1]: stats[f] for f in fs}
+            lab = lambda f: "est0.txt" if f == "r3.zip" else "est%s.txt" % f[1]  # noqa: E731
+            labels = [lab(f) for f in fs]
+            want = {lab(f): stats[f] for f in fs}
         o = {"out": "ok", "labels": [], "cells_ok": False, "keys_ok": False}
         if r["code"] != 0 or r["exc"] != "none" or not os.path.exists(out):
             o["out"] = "exit%s:%s" % (r["code"], r["exc"])
@@ -120,7 +129,7 @@ def table_cases(rep, tier, seed):
                     if k in col and not (col[k] == v or (merge and abs(col[k] - v) <= 1e-15 * max(1.0, abs(v)))):
                         cells_ok = False
             o["keys_ok"], o["cells_ok"] = keys_ok, cells_ok
-        traces.append({"id": "tab%d" % n, "what": "table", "c": {"labels": labels, "merge": merge}, "o": o, "_single": True,
+        traces.append({"id": "tab%d" % n, "what": "table", "c": {"labels": labels, "merge": merge, "dup": len(set(labels)) < len(labels)}, "o": o, "_single": True,
                        "argv": argv})
     shutil.rmtree(d, ignore_errors=True)
     return traces
@@ -130,6 +139,9 @@ def run(rep, tier, seed):
     r = core.tlc("result", "Result", "MC_result_%s.cfg" % tier, workers=8)
     rep.add_tlc(r)
     cases = r.printed_json()
+    r3 = core.tlc("result", "Result", "MC_result_light3.cfg", workers=8)
+    rep.add_tlc(r3)
+    cases += r3.printed_json()
     rl = core.tlc("result", "Result", "MC_result_legacy.cfg", workers=8, expect_ok=False)
     if rl.rc != 12:
         raise core.MachineryError("order-sensitive merge strategy not refuted")
@@ -160,7 +172,7 @@ def run(rep, tier, seed):
     p["id"] = "probe.arr"
     p["o"]["arrays"][0][1] = p["o"]["arrays"][0][1][::-1] + [[7, 1]]
     probes.append(p)
-    p = copy.deepcopy(tabs[0])
+    p = copy.deepcopy(next(t for t in tabs if not t["c"]["dup"] and t["o"]["out"] == "ok"))
     p["id"] = "probe.tab"
     p["o"]["labels"] = p["o"]["labels"][:-1] + ["ref.txt"]
     probes.append(p)
